@@ -16,6 +16,12 @@ Translator for C17: regenerates lean/EasyNet/EasyNet/Gen/IsoTables.lean from the
                     `push_async_callback(disconnect_client)` on an exit stack entered after the initializer, …) and the
                     two flags `ocCompleted` / `odRegistered` (statement order inside misc.py's handler).
                     Every entry is confirmed on each run by the fault-injection matrix (which filter logged).
+  (d) receiver guard the positions `h_thrown` / `oc_thrown` rest on the receivers turning whatever goes wrong while waiting for
+                    and parsing the client's next request (parse errors above all) into a `ThrowAction` thrown into the
+                    handler generator at `action.asend`: every call that reads from the transport or parses buffered bytes
+                    in `_RequestReceiver.next`, `_BufferedRequestReceiver.next` (stream.py) and `__parse_datagram`
+                    (datagram.py) must sit in the body of a `try` whose `except BaseException as exc` returns / assigns
+                    `ThrowAction(exc)`.  Confirmed behaviourally by the malformed-input cases of C17.
 If the source no longer has the shape the translator knows, a table that cannot satisfy the theorems is emitted.
 """
 from __future__ import annotations
@@ -421,6 +427,31 @@ def _check(cond: bool, what: str) -> None:
         raise TranslateError("nesting link not found: " + what)
 
 
+def _converts_to_throwaction(tr: ast.AST) -> bool:
+    for h in tr.handlers:  # type: ignore[attr-defined]
+        if isinstance(tr, ast.TryStar) or h.name is None:
+            continue
+        if h.type is not None and ast.unparse(h.type) != "BaseException":
+            continue
+        for stmt in h.body:
+            v = stmt.value if isinstance(stmt, (ast.Return, ast.Assign)) else None
+            if v is not None and ast.unparse(v) == f"ThrowAction({h.name})":
+                return True
+    return False
+
+
+def _receiver_guard(modname: str, path: str, callees: tuple[str, ...]) -> None:
+    fn = _func(modname, path)
+    seen = 0
+    for n in _own_nodes(fn):
+        if isinstance(n, ast.Call) and ast.unparse(n.func).endswith(callees):
+            seen += 1
+            _check(any(_converts_to_throwaction(tr) for tr in _enclosing_trys(n, fn)),
+                   f"{modname.rsplit('.', 1)[-1]}.{path}: `{ast.unparse(n)[:60]}` is not inside the body of "
+                   "`try: … except BaseException as exc: … ThrowAction(exc)` (an error raised there escapes the client task)")
+    _check(seen > 0, f"{modname.rsplit('.', 1)[-1]}.{path}: no call to any of {callees}")
+
+
 def extract() -> dict:
     _src_cache.clear()
     filters: list[dict] = []
@@ -524,6 +555,11 @@ def extract() -> dict:
     _check(any(isinstance(n, ast.Call) and ast.unparse(n.func) == "build_lowlevel_datagram_server_handler"
                and n.args and ast.unparse(n.args[0]) == "self.__client_initializer" for n in ast.walk(uls)),
            "build_lowlevel_datagram_server_handler(self.__client_initializer, …)")
+
+    # (d) the receivers: nothing that reads or parses the client's bytes may raise outside the ThrowAction guard
+    _receiver_guard(STREAM, "_RequestReceiver.next", ("consumer.next", "transport.recv"))
+    _receiver_guard(STREAM, "_BufferedRequestReceiver.next", ("consumer.next", "transport.recv_into", "consumer.get_write_buffer"))
+    _receiver_guard(DGRAM, "AsyncDatagramServer.__parse_datagram", ("build_packet_from_datagram",))
 
     def line_of(needle: str) -> int:
         return _anchor(hfn, needle, MISC + ":" + H).lineno
